@@ -192,6 +192,19 @@ CLAIMED = {
         "spring-forward gap (findings F8a Sensortran host-local conversion, F8b - both repaired).",
    ref="5/C12", note=TB + "pandas / zoneinfo zone tables are runtime data; host TZ is varied through the environment of a fresh process (vlib/tz_worker.py).",
    technique="Coq proof of the interval arithmetic on instants + subprocess conformance across host time zones"),
+ "C13": dict(
+   category="proof",
+   text="PARTIAL. Proof (model of blocked evaluation over lists): a block-wise evaluation of any cell-local function over ANY partition of the cells, with the block "
+        "results gathered in block order, equals the whole-array evaluation - so it cannot depend on chunk sizes or on the order in which blocks are computed; two-axis "
+        "chunking, selection across block boundaries and re-chunking preserve content (coq/Props/C13.v, 4 theorems). What the theorems cannot carry - the dask graph, "
+        "scheduler and thread interleaving, and round-off of re-associated reductions - is examined by real runs: reader outputs for load_in_memory True/False/'auto' "
+        "under several dask chunk-size limits (synthesised Silixa set, bundled Silixa and AP Sensing sets); single/double-ended calibration, variance_stokes_constant / "
+        "_exponential and ufunc_per_section on datasets re-chunked along x and time, under the synchronous scheduler and the threaded scheduler with 1..16 workers, "
+        "compared with the in-memory result at 1e-10 relative.",
+   ref="5/C13", note=TB + "Thread schedules are sampled by running, not enumerated: a data race that needs a particular interleaving is outside the model (runtime behaviour the "
+        "model cannot exhibit). variance_stokes_exponential is limited to <= 4 chunks per dimension. Observation (not a violation of C13): 'auto' is truthy in "
+        "`load_in_memory == 'auto' and npartitions <= 5 or load_in_memory`, so 'auto' always loads into memory.",
+   technique="Coq proof of partition independence of block-wise evaluation + real runs over chunkings x schedulers"),
 }
 NA = {}
 ALL = [f"C{i:02d}" for i in range(1, 21)]
